@@ -29,14 +29,14 @@ CHECKS["C19"] = {
 		"(exact sizes for the fixed-size headers: 66, 33, 127 bytes; short buffers and shape-directed inputs for the variable-length decoders). "
 		"Crashing inputs are single byte patterns (length fields, multi-byte varints) that sampling misses; a solver verdict over all bytes finds them.",
 	"note": "vec![0u8; n] routed through an allocation monitor (n <= 8*len + 64); format!/Backtrace stubbed (a panic inside a Display impl would be missed); u32::pow(2,z) model; HashMap model in BlockIndex/VTLPMap. "
-		"Outside: parse_vpl, number parsing, JSON/CSV text parsers (ByteIterator: no verdict within reach, DESIGN section 8), whole MBTiles/tar/directory containers, real decompressors.",
+		"ByteIterator::format_error (the error excerpt of every JSON/CSV syntax error) from an arbitrary iterator state at positions 1 and 2. Outside: parse_vpl, number parsing, JSON/CSV text parsers themselves (from_utf8 over symbolic bytes: no verdict within reach, DESIGN 0.2 item 5), whole MBTiles/tar/directory containers, real decompressors.",
 	"technique": BMCT + "; shape-directed inputs for variable-length decoders",
 }
 CHECKS["C01"] = {
-	"text": "Layout kernels of the versatiles v02 and PMTiles v3 writers/readers: header, block definition, tile index, directory entries, Hilbert tile ids. "
+	"text": "Layout kernels of the versatiles v02 and PMTiles v3 writers/readers: file header, block definition, tile index, PMTiles header and codes, Hilbert tile ids. "
 		"For all field values CBMC shows (a) an independent decoder written from the published layout recovers every field from the written bytes and (b) reader(writer(x)) = x. "
 		"Whether a written file can be read back, and by a foreign decoder, is decided by exactly this arithmetic.",
-	"note": "Outside the claim (stated in evidence): order/positions of the async writers' I/O operations, de-duplication, the 16 KiB root/leaf split, metadata, MBTiles/tar/directory, real compression, tile id round trip above zoom 10 (differential vs the spec algorithm up to zoom 31).",
+	"note": "Outside the claim (stated in evidence): order/positions of the async writers' I/O operations, de-duplication, PMTiles directory serialisation (EntriesV3::serialize: CBMC out of memory at 1 entry) and the 16 KiB root/leaf split, metadata, MBTiles/tar/directory, real compression, tile id round trip above zoom 10 (differential vs the spec algorithm up to zoom 31).",
 	"technique": BMCT + "; differential against an independent layout decoder / reference Hilbert algorithm",
 }
 CHECKS["C16"] = {
@@ -52,13 +52,13 @@ CHECKS["C06"] = {
 	"technique": BMCT,
 }
 CHECKS["C04"] = {
-	"text": "Recompression pipeline and the converting reader under a codec model that is exactly the contract of a lossless codec: for all 3x3x2 (source, target, force) configurations and a symbolic payload, decoding the output under the DECLARED compression yields the source payload; pipeline empty iff nothing to do.",
-	"note": "gzip/brotli replaced by the tag model enc(p) = TAG ++ p (real codecs outside the claim); payload <= 3 bytes (the code never inspects payload bytes).",
+	"text": "Recompression pipeline (TileConverter::new_tile_recompressor + process_blob, recompress/compress/decompress dispatch) under a codec model that is exactly the contract of a lossless codec: for all 3x3x2 (source, target, force) configurations and a symbolic payload, decoding the output under the TARGET compression yields the source payload; pipeline empty iff nothing to do.",
+	"note": "gzip/brotli replaced by the tag model enc(p) = TAG ++ p (real codecs outside the claim); payload <= 3 bytes (the code never inspects payload bytes). That TilesConvertReader DECLARES the target compression it recompresses to (c04_declared_*: 420-780 s each, out of memory when run in parallel) is not registered and outside the claim.",
 	"technique": BMCT + " under a lossless-codec model",
 }
 CHECKS["C11"] = {
-	"text": "The varint and zigzag primitives every vector-tile field is written and read with: write_varint/read_varint and write_svarint/read_svarint are mutually inverse for ALL u64 / i64 values, canonical length, exact consumption (this found the arithmetic-shift defect of read_svarint for |v| >= 2^62).",
-	"note": "Only the primitives: layer / feature / value decoding reads through Box<dyn ValueReader> sub-readers and produced no verdict within 2400 s even on structured inputs (harnesses kept unregistered); the update_properties operation is async + dyn. So the statement about whole tiles is NOT decided.",
+	"text": "The varint and zigzag primitives every vector-tile field is written and read with: write_varint/read_varint and write_svarint/read_svarint are mutually inverse for ALL u64 / i64 values, canonical length, exact consumption (this found the arithmetic-shift defect of read_svarint for |v| >= 2^62). Value codec one side at a time: GeoValue::read maps every (field, wire type) and every primitive payload to the variant the MVT Value message prescribes (scripted ValueReader), GeoValue::to_blob writes what a reference protobuf reader decodes back to the value, per variant, all 64-bit payloads.",
+	"note": "Primitives and the value codec only: layer / feature decoding reads through Box<dyn ValueReader> sub-readers and produced no verdict within 2400 s even on structured inputs (harnesses kept unregistered); strings inside values (from_utf8 on symbolic bytes) and the update_properties operation (async, dyn, CSV) are outside: the statement about whole tiles and about the update stage is NOT decided, only the value/varint level of \"decoding and re-encoding preserves content\".",
 	"technique": BMCT + "; differential against ground truth from an independent encoder",
 }
 CHECKS["C05"] = {
@@ -89,8 +89,8 @@ CHECKS["C09"] = {
 }
 CHECKS["C03"] = {
 	"text": "Kernels from which readers and operations derive their advertised coverage: folding include_coord over stored tiles yields exactly their bounding box per level (tar / directory / PMTiles readers); "
-		"versatiles: union of block boxes from an independently encoded sparse index; pipeline unions keep both operands; converting reader: advertised = selected pre-image set.",
-	"note": "Zoom levels of the folded tiles concrete per instance, coordinates symbolic; MBTiles MIN/MAX SQL, PMTiles directory walk (async), file-name parsing outside.",
+		"converting reader: advertised = selected pre-image set.",
+	"note": "Zoom levels of the folded tiles concrete per instance, coordinates symbolic; MBTiles MIN/MAX SQL, PMTiles directory walk (async), file-name parsing, the versatiles block-index union and the pipeline unions (include_bbox_pyramid: no verdict within reach) outside.",
 	"technique": BMCT,
 }
 CHECKS["C02"] = {
